@@ -5,6 +5,7 @@ import (
 	"encoding/json"
 	"fmt"
 	"math"
+	"reflect"
 	"strings"
 	"unsafe"
 
@@ -15,6 +16,7 @@ import (
 	"github.com/bytedance/sonic/option"
 
 	"verif/internal/ev"
+	"verif/internal/gen"
 )
 
 // C06: returned data is caller-owned; buffers and inputs are never aliased or overrun.
@@ -348,7 +350,7 @@ func init() {
 		ID: "C06", Level: "model_checking", Workers: 16, QuickSecs: 150, ThorSecs: 1500,
 		Rule: "every history of <= 3 (quick) / 4 (thorough) operations over ~30 operation instances (Marshal / MarshalString / MarshalIndent / stream Encode / EncodeInto of values on both sides of the pool size limit, with EscapeHTML and ValidateString post-passes, an erroring encode; Node.MarshalJSON / Raw on raw, searched and loaded nodes; the caller overwriting every []byte it was given; Unmarshal([]byte) / Get([]byte) followed by overwriting the input) " +
 			"on the real code with sync.Pool replaced by a deterministic LIFO that never drops (maximal reuse) and option.LimitBufferSize lowered to 256; after every operation: every result returned so far still equals its snapshot, the operation's output equals its output on a fresh state, decoded values do not change when the input buffer is overwritten. " +
-			"Plus the exhaustive sweep EncodeInto x values x EVERY capacity 0..40 x 2 fill patterns x 4 option sets with a canary prefix and a canary behind the capacity. states = histories, transitions = operations",
+			"Plus the exhaustive sweep EncodeInto x {10 hand-written values, every (type, value, addressability) case of the encoder grammar TYPE(2) x VAL(T) of C03} x EVERY capacity from 0 to 8 bytes more than the output needs x 2 prefix lengths x 2-4 option sets, with a canary prefix and a canary behind the capacity: nothing behind the capacity changes, the prefix stays, error and output do not depend on the buffer. states = histories, transitions = operations",
 		Assume: []string{"the deterministic pool hands back the most recently released object: the schedule with maximal reuse", "strings are immutable for the caller: only []byte results are overwritten"},
 		Run: func(c *ev.Ctx, r *ev.Report) {
 			depth := 3
@@ -389,20 +391,13 @@ func init() {
 			r.SetAdd("depth", fmt.Sprint(depth))
 			r.Sample(c06case{Ops: []string{"Node(raw).MarshalJSON", "caller-overwrites-every-[]byte-it-was-given", "Node(raw).Raw"}})
 			// ---- capacity sweep
-			if c.Shard == 0 || c.NShard == 1 {
-				c06sweep(r)
-			}
+			c06sweep(c, r)
 		},
 		Replay: func(c *ev.Ctx, desc json.RawMessage) *ev.Violation {
 			var cs c06case
 			json.Unmarshal(desc, &cs)
 			if cs.Kind == "sweep" {
-				rr := ev.NewReport()
-				c06sweep(rr)
-				for i := range rr.Violations {
-					return &rr.Violations[i]
-				}
-				return nil
+				return c06sweepReplay(cs.Spec)
 			}
 			var h []int
 			for _, n := range cs.Ops {
@@ -417,64 +412,129 @@ func init() {
 	})
 }
 
-// c06sweep: EncodeInto with caller buffers of every capacity 0..40.
-func c06sweep(r *ev.Report) {
-	c06setup()
-	vals := []interface{}{1, "s", "a<b>&", []int{1, 2, 3}, c06small, c06large, map[string]int{}, nil, "bad\xff", 1.5e300}
-	optsets := []encoder.Options{0, encoder.EscapeHTML, encoder.ValidateString | encoder.SortMapKeys, encoder.EscapeHTML | encoder.ValidateString | encoder.NoEncoderNewline | encoder.SortMapKeys}
-	for vi, v := range vals {
-		for _, o := range optsets {
-			want, werr := encoder.Encode(v, o)
-			for capn := 0; capn <= 40; capn++ {
-				for _, plen := range []int{0, 3} {
-					if plen > capn {
+// c06sweep: EncodeInto with caller buffers of EVERY capacity from 0 to 8 bytes more than the
+// output needs, so that every emitting instruction meets the geometry "exactly as much room
+// as it checked for". Values: a hand-written list plus every (type, value, addressability)
+// case of the encoder grammar TYPE(2) x VAL(T) shared with C03.
+func c06sweepOne(r *ev.Report, spec string, v interface{}, optsets []encoder.Options, fills []byte) {
+	for _, o := range optsets {
+		want, werr, wpan := safeEncode(v, o)
+		if wpan != "" {
+			continue // a panicking encode is C07's business
+		}
+		for capn := 0; capn <= len(want)+3+8; capn++ {
+			for _, plen := range []int{0, 3} {
+				if plen > capn {
+					continue
+				}
+				for _, fill := range fills {
+					r.Evaluations++
+					arena := make([]byte, capn+16)
+					for i := range arena {
+						arena[i] = fill
+					}
+					prefix := []byte("<p>")[:plen]
+					copy(arena, prefix)
+					buf := arena[:plen:capn]
+					err := encoder.EncodeInto(&buf, v, o)
+					cspec := fmt.Sprintf("%s opts=%d cap=%d prefix=%d fill=%#x", spec, o, capn, plen, fill)
+					mk := func(class, exp, obs string) {
+						r.Violate(ev.Violation{Property: "C06", Key: "EncodeInto:" + class, What: "EncodeInto with a caller-supplied buffer", Case: ev.J(c06case{Kind: "sweep", Spec: cspec}), Expected: clipS(exp, 200), Observed: clipS(obs, 200)})
+					}
+					if (err == nil) != (werr == nil) {
+						mk("error-depends-on-the-buffer", fmt.Sprint(werr), fmt.Sprint(err))
 						continue
 					}
-					for _, fill := range []byte{0x00, 0xA5} {
-						r.Evaluations++
-						arena := make([]byte, capn+16)
-						for i := range arena {
-							arena[i] = fill
+					// whatever the outcome, nothing behind the capacity may change and the bytes
+					// the caller already had in the buffer stay
+					for i := capn; i < len(arena); i++ {
+						if arena[i] != fill {
+							mk("writes-beyond-the-capacity", "untouched", fmt.Sprintf("byte %d behind the capacity changed to %#x (output %q)", i-capn, arena[i], clipS(string(want), 60)))
+							break
 						}
-						prefix := []byte("<p>")[:plen]
-						copy(arena, prefix)
-						buf := arena[:plen:capn]
-						err := encoder.EncodeInto(&buf, v, o)
-						spec := fmt.Sprintf("value#%d opts=%d cap=%d prefix=%d fill=%#x", vi, o, capn, plen, fill)
-						mk := func(class, exp, obs string) {
-							r.Violate(ev.Violation{Property: "C06", Key: "EncodeInto:" + class, What: "EncodeInto with a caller-supplied buffer", Case: ev.J(c06case{Kind: "sweep", Spec: spec}), Expected: clipS(exp, 200), Observed: clipS(obs, 200)})
+					}
+					if !bytes.Equal(arena[:plen], prefix) {
+						mk("prefix-in-the-caller's-array-overwritten", string(prefix), string(arena[:plen]))
+					}
+					if err != nil {
+						continue
+					}
+					if !bytes.HasPrefix(buf, prefix) {
+						cl := "prefix-already-in-the-buffer-modified"
+						if o&encoder.EscapeHTML != 0 {
+							cl += "(EscapeHTML)"
 						}
-						if (err == nil) != (werr == nil) {
-							mk("error-depends-on-the-buffer", fmt.Sprint(werr), fmt.Sprint(err))
-							continue
-						}
-						if err != nil {
-							continue
-						}
-						if !bytes.HasPrefix(buf, prefix) {
-							cl := "prefix-already-in-the-buffer-modified"
-							if o&encoder.EscapeHTML != 0 {
-								cl += "(EscapeHTML)"
-							}
-							mk(cl, string(prefix)+string(want), string(buf))
-							continue
-						}
-						if !bytes.Equal(buf[plen:], want) {
-							mk("output-depends-on-capacity-or-prior-contents", string(want), string(buf[plen:]))
-						}
-						for i := capn; i < len(arena); i++ {
-							if arena[i] != fill {
-								mk("writes-beyond-the-capacity", "untouched", fmt.Sprintf("byte %d behind the capacity changed", i-capn))
-								break
-							}
-						}
-						if !bytes.Equal(arena[:plen], prefix) {
-							mk("prefix-in-the-caller's-array-overwritten", string(prefix), string(arena[:plen]))
-						}
+						mk(cl, string(prefix)+string(want), string(buf))
+						continue
+					}
+					if !bytes.Equal(buf[plen:], want) {
+						mk("output-depends-on-capacity-or-prior-contents", string(want), string(buf[plen:]))
 					}
 				}
 			}
 		}
 	}
-	r.Count("encodeinto_capacity_sweep_cases", r.Evaluations)
+}
+
+var c06sweepOpts = []encoder.Options{0, encoder.EscapeHTML, encoder.ValidateString | encoder.SortMapKeys, encoder.EscapeHTML | encoder.ValidateString | encoder.NoEncoderNewline | encoder.SortMapKeys}
+
+func c06sweepHand() []interface{} {
+	c06setup()
+	return []interface{}{1, "s", "a<b>&", []int{1, 2, 3}, c06small, c06large, map[string]int{}, nil, "bad\xff", 1.5e300}
+}
+
+// c06sweep runs the sweep; only (when >= 0) restricts it to one grammar case or hand value.
+func c06sweep(c *ev.Ctx, r *ev.Report) {
+	before := r.Evaluations
+	for vi, v := range c06sweepHand() {
+		if !c.Mine(500000 + vi) {
+			continue
+		}
+		c06sweepOne(r, fmt.Sprintf("value#%d", vi), v, c06sweepOpts, []byte{0x00, 0xA5})
+	}
+	n := 0
+	encSuite(c, 2, func(t gen.TypeCase, ti, vi int, addr bool, val interface{}) bool {
+		n++
+		if n&0xff == 0 && c.Expired() {
+			r.Exhaustive = false
+			return false
+		}
+		if typeHas(t.T, func(x reflect.Type) bool { return x.Kind() == reflect.Map || x.Kind() == reflect.Interface }, 0) {
+			// more than one key without SortMapKeys: output order is not a function of the value
+			c06sweepOne(r, fmt.Sprintf("T%d/V%d/%v", ti, vi, addr), val, c06sweepOpts[2:], []byte{0xA5})
+			return true
+		}
+		c06sweepOne(r, fmt.Sprintf("T%d/V%d/%v", ti, vi, addr), val, []encoder.Options{0, c06sweepOpts[3]}, []byte{0xA5})
+		return true
+	})
+	r.Count("encodeinto_capacity_sweep_cases", r.Evaluations-before)
+}
+
+func c06sweepReplay(spec string) *ev.Violation {
+	rr := ev.NewReport()
+	var vi, ti, tvi int
+	var addr bool
+	if _, err := fmt.Sscanf(spec, "value#%d", &vi); err == nil {
+		if h := c06sweepHand(); vi < len(h) {
+			c06sweepOne(rr, fmt.Sprintf("value#%d", vi), h[vi], c06sweepOpts, []byte{0x00, 0xA5})
+		}
+	} else if _, err := fmt.Sscanf(spec, "T%d/V%d/%t", &ti, &tvi, &addr); err == nil {
+		types := gen.Types(2)
+		if ti < len(types) {
+			vals := gen.Values(types[ti].T, 0)
+			if tvi < len(vals) {
+				var val interface{} = vals[tvi].Interface()
+				if addr {
+					p := reflect.New(types[ti].T)
+					p.Elem().Set(vals[tvi])
+					val = p.Interface()
+				}
+				c06sweepOne(rr, fmt.Sprintf("T%d/V%d/%v", ti, tvi, addr), val, c06sweepOpts, []byte{0x00, 0xA5})
+			}
+		}
+	}
+	for i := range rr.Violations {
+		return &rr.Violations[i]
+	}
+	return nil
 }
